@@ -102,6 +102,12 @@ def c18_runs(tier):
         fget('pool', 1, 'thr', PROGS[1], 1, n=1, mode='tsan', opts=FSC, budget=200)
         fget('nt', 1, 'thr', 'r.-.d', 0, mode='asan', drop=1, budget=120)
         fget('cts', 1, 'val', PROGS[0], 0, n=1, mode='asan', opts=FSC, budget=120)
+    if not q:  # deeper extras last: a tier deadline on a loaded machine cuts only these
+        fget('man', 0, 'val', PROGS[1], 3, budget=300)
+        fget('ts', 1, 'val', PROGS[0], 2, n=1, budget=200)
+        fget('cts', 2, 'val', PROGS[1], 2, n=1, budget=200)
+        fget('pool', 3, 'thr', PROGS[0], 3, n=1, opts=FSC, budget=300)
+        fget('nt', alts(0, 3), 'val', PROGS[0], 2, budget=200)
     return sorted(R.runs, key=lambda r: r.mode == 'plain')  # sanitizer legs first: a tier deadline must not cut them
 
 
@@ -167,6 +173,10 @@ def c19_runs(tier):
         fthen('pool', 'imm', alts(1, 2), 0, BG, 2, n=1, opts=FSC, budget=120)
         fthen('pool', 'imm', 1, 0, 'b', 2, n=1, budget=120)
         fthen('pool', alts('pool', 'cts'), 1, 0, 'b', 2, pol=1, n=2, opts=FSC, budget=200)
+    # an external completer thread drains the chain and enqueues the continuation onto a live (parked) pool while a
+    # second thread registers (deterministic since the engine pins thread stacks; see notes)
+    fthen('man', alts('pool', 'cts'), 1, 1, 'b', 1 if q else 2, pol=alts(1, 2), n=1, opts=FSC, budget=200)
+    fthen('man', 'ts', 2, 0, BG, 1 if q else 2, pol=1, n=1, opts=FSC, budget=200)
     # zero-thread pool: the set's bookkeeping without a worker; a completer thread and a second registrar
     fthen('man', 'ts', 1, 0, BG, 2, pol=2, n=0, budget=60)
     fthen('man', alts('cts', 'pool'), 1, 1, 'b', 1 if q else 2, pol=alts(1, 2), n=0, budget=90)
@@ -215,6 +225,11 @@ def c19_runs(tier):
         fwhen('mm', 'g', 1, op='all', form='tup', mode='tsan', ord='01', early=1, budget=200)
         fwhen('mm', 'w', 0, op='any', form='it', mode='asan', set='cts', n=0, ord='10', budget=120)
         fwhen('mrm', 'g', 0, op='all', form='tup', mode='asan', ord='20', budget=120)
+    if not q:  # deeper extras last
+        fwhen('mm', 'b', 3, form='it', ord='10', early=1, budget=300)
+        fwhen('mm', 'g', 3, form='tup', ord='01', budget=300)
+        fthen('man', 'imm', 2, 1, 'g', 2, budget=200)
+        fthen('pool', POOLS, 1, 0, 'g', 2, pol=alts(0, 3), n=1, opts=FSC, budget=300)
     if not q:
         fthen('man', 'imm', 1, 1, 'b', 3, budget=400)  # ~130 k executions: last, so that a tier deadline cuts only this one
     return sorted(R.runs, key=lambda r: r.mode == 'plain')  # sanitizer legs first: a tier deadline must not cut them
@@ -223,7 +238,7 @@ def c19_runs(tier):
 reg('C19', level='model_checking', runs=c19_runs, quick_budget_s=300, thorough_budget_s=1800,
     technique='stateless model checking of the real then-chain (addToThenChainOrExecute / tryExecuteThenChain) and of when_all / when_any (iterator and tuple forms, plain and task-set variants) against completer threads and pool workers',
     level_text='then(): 1-2 continuations registered by T0 and 0-2 by a second thread, optionally a continuation of a continuation, while a completer thread (one invocation of the antecedent\'s scheduled function) or a parked ThreadPool(1) worker completes the antecedent, or it is complete before / completed by nobody (pulled through get()); then-schedulables {ImmediateInvoker, NewThreadInvoker, ThreadPool, TaskSet, ConcurrentTaskSet (pools of 0 and 1; 2 thorough)} x policies; consumers that never touch the returned future (so only the chain can deliver: a lost link is a deadlock verdict), get() it, or wait_for(0) it; spurious weak-CAS failures on two shapes; <=3 deviations on the smallest shape, 2 otherwise (4/3 thorough), 1 (2) with a pool. when_all / when_any: 0-3 inputs that are ready, completed by completer threads in every tested order (one thread or one per input), or pool futures; consumers get() (inline path), block until delivered by the then-callbacks, or taskSet.wait() first; an observer thread polling is_ready(); <=2 deviations (3 thorough) for <=2 inputs, 1 (2) for 3. Oracle: every continuation entered exactly once, its antecedent is_ready() and its functor finished, values/exceptions propagate; the antecedent ran once; chain empty and then-future reference counts exact at quiescence; when_all ready => size and order of inputs preserved, every input ready; when_any index < n names a ready input, SIZE_MAX iff no inputs; TaskSet/ConcurrentTaskSet::wait() returned => result is_ready().',
-    level_note='SC interleavings; continuations are scheduled onto a pool only by T0 or by that pool\'s worker (an external thread enqueueing makes moodycamel hash its TLS address, which is not replay-stable across executions in one process). The result-state reference count of when_any is observed, not asserted, here (cover result_refcount_off; see notes: strict=1).',
+    level_note='SC interleavings. The result-state reference count of when_any is observed, not asserted, here (cover result_refcount_off; see notes: strict=1).',
     design_ref='DESIGN.md section 4, C19', assumptions=MC_ASSUME,
     rule='one evaluation = one complete execution of one configuration under one schedule; distinct_nontrivial = distinct scheduler states with more than one continuation',
     guards=[need_cover('then_inline_late_ready', 'then_inline_ready_before', 'cont_not_in_then', 'then_get', 'pulled_through', 'taskset_wait',
@@ -291,6 +306,11 @@ def c20_runs(tier):
         fut('man', 0, 'blocked', 1, mode='tsan', api='until', d=300, by=2, budget=200)
         fut('pool', 1, 'during', 1, mode='tsan', n=1, d=300, api='for', opts=TIMED_FSC, budget=200)
         fut('nt', 0, 'during', 0, mode='asan', api='for', d=300, budget=120)
+    if not q:  # deeper extras last
+        fut('man', alts(1, 3), 'during', 3, budget=300)
+        fut('nt', alts(0, 2), 'during', 3, budget=300)
+        fut('pool', alts(0, 3), 'during', 2, n=1, d=alts(0, 300), api='until', opts=TIMED_FSC, budget=300)
+        cev(alts('during', 'never'), 2, d1=alts(0, 300), by=1, budget=300)
     return sorted(R.runs, key=lambda r: r.mode == 'plain')  # sanitizer legs first: a tier deadline must not cut them
 
 
